@@ -83,7 +83,10 @@ def h_transpose_ns(c):
   hi = c.int('hi', 0, 127)
   in_place = c.params['in_place']
   before = c.snapshot(ns)
-  out, deleted = sl.transpose_note_sequence(ns, k, lo, hi, in_place=in_place)
+  tchords = c.params.get('transpose_chords', True)
+  out, deleted = sl.transpose_note_sequence(ns, k, lo, hi,
+                                            transpose_chords=tchords,
+                                            in_place=in_place)
   if in_place:
     c.check(out is ns, 'in_place=True returns the same object')
   else:
@@ -106,10 +109,18 @@ def h_transpose_ns(c):
     c.check(out.total_time >= m.end_time, 'total_time covers kept notes')
   c.check(c.eq(out.key_signatures[0].key, (key + k) % 12),
           'key signature moved by k mod 12')
-  c.check(c.And(c.msg_eq(out.text_annotations[0], before.text_annotations[0]),
-                c.msg_eq(out.text_annotations[1], before.text_annotations[1]),
-                c.msg_eq(out.control_changes[0], before.control_changes[0])),
-          'non-chord annotations, N.C. and control changes untouched')
+  if tchords:
+    c.check(c.And(c.msg_eq(out.text_annotations[0], before.text_annotations[0]),
+                  c.msg_eq(out.text_annotations[1], before.text_annotations[1]),
+                  c.msg_eq(out.control_changes[0], before.control_changes[0])),
+            'non-chord annotations, N.C. and control changes untouched')
+  else:
+    # transpose_chords=False: chord symbols are removed, everything else
+    # (including the key shift above) is as before
+    c.check(len(out.text_annotations) == 1 and bool(c.And(
+        c.msg_eq(out.text_annotations[0], before.text_annotations[0]),
+        c.msg_eq(out.control_changes[0], before.control_changes[0]))),
+            'transpose_chords=False removes the chord symbols only')
   c.cover('a note falls just outside the allowed range',
           c.And(c.Not(notes[0]['is_drum']), c.eq(notes[0]['pitch'] + k, hi + 1)))
   c.cover('a drum note outside the range is kept',
@@ -402,6 +413,7 @@ def jobs(tier):
   add('h_transpose_ns', N=1, in_place=False)
   add('h_transpose_ns', N=1, in_place=True)
   add('h_transpose_ns', N=2, in_place=False)
+  add('h_transpose_ns', N=1, in_place=False, transpose_chords=False)
   for st in 'ABCDEFG':
     add('h_spelling', step=st)
   figs = []
